@@ -34,11 +34,12 @@ func genC11(x *Ctx) *c11Scen {
 	rid := 0
 	for i := 0; i < nSvc; i++ {
 		sp := SvcSpec{ID: i, Root: c11Roots[perm[i]], Dynamic: true}
-		n := tp.Range(1, 3)
-		sub := tp.Perm(len(c11Subs))
+		n := tp.Range(1, 4)
+		// distinct (method, path) pairs: the same path may carry several methods
+		pairs := tp.Perm(2 * len(c11Subs))
 		for k := 0; k < n; k++ {
 			rid++
-			sp.Routes = append(sp.Routes, RouteSpec{ID: rid, Method: []string{"GET", "POST"}[tp.G(2)], Path: c11Subs[sub[k]]})
+			sp.Routes = append(sp.Routes, RouteSpec{ID: rid, Method: []string{"GET", "POST"}[pairs[k]%2], Path: c11Subs[pairs[k]/2]})
 		}
 		sc.Svcs = append(sc.Svcs, sp)
 	}
